@@ -243,6 +243,16 @@ def directed_cases():
     for lab, extra in (("select", {"select": ["o1"]}), ("entry", {"entry": ["plain"]}), ("select+entry", {"select": ["o1"], "entry": ["plain"]})):
         sub = {"k": "sub", "name": "inner", "prog": inner({"cfg": "bound:CFG"})}
         out.append((f"directed:shared-name-bound-in-out-of-scope-subgraph:{lab}", {"name": "outer", "nodes": [copy.deepcopy(plain), sub], "bind": {}, **extra}, None))
+    # an UNSELECTED nested graph with an inner binding whose other inputs are satisfiable anyway (it still runs):
+    # its bound input must resolve although the narrowed contract no longer lists it
+    for lab, extra in (("select", {"select": ["p"]}), ("select-two", {"select": ["p", "m"]})):
+        nodes = [
+            {"k": "fn", "name": "up", "params": [{"n": "a"}], "outs": ["m"]},
+            {"k": "sub", "name": "inner", "prog": {"name": "inner", "nodes": [{"k": "fn", "name": "f", "params": [{"n": "m"}, {"n": "k"}], "outs": ["o"]}], "bind": {"k": "bound:K"}}},
+            {"k": "fn", "name": "other", "params": [{"n": "m"}], "outs": ["p"]},
+        ]
+        out.append((f"directed:unselected-subgraph-with-inner-binding:{lab}", {"name": "outer", "nodes": nodes, "bind": {}, **extra}, None))
+        out.append((f"directed:unselected-subgraph-with-inner-binding:runtime-{lab}", {"name": "outer", "nodes": copy.deepcopy(nodes), "bind": {}}, extra["select"]))
     return out
 
 
